@@ -34,6 +34,8 @@ type Contract struct {
 	Trusted     bool
 	Lemma       bool
 	MathInt     bool // int arithmetic treated as mathematical (no int-range obligations): listed as an assumption
+	Slow        bool // verified in the thorough tier only (obligations close to the quick time limit)
+	Monotone    bool // rec function whose value never decreases with its bound argument (proved: step >= 0)
 	Rec         bool // recursive ghost function: uninterpreted symbol + one unfolding per application
 	FreshRes    bool
 	AllocBound  *Clause
@@ -90,7 +92,7 @@ func hasTag(tags []string, p string) bool {
 	return false
 }
 
-var clauseHead = regexp.MustCompile(`^(func|requires|ensures|invariant|decreases|cases|exit|loop|safety|modifies|recv|nocap|inline|trusted|lemma|fresh|allocates|unroll|rec|mathint)(\[[A-Za-z0-9,* ]*\])?(\s+|$)`)
+var clauseHead = regexp.MustCompile(`^(func|requires|ensures|invariant|decreases|cases|exit|loop|safety|modifies|recv|nocap|inline|trusted|lemma|fresh|allocates|unroll|rec|mathint|slow)(\[[A-Za-z0-9,* ]*\])?(\s+|$)`)
 
 // parseContractFile extracts the //@ blocks of one file.
 func parseContractComments(fset *token.FileSet, f *ast.File) ([]*Contract, error) {
@@ -172,8 +174,13 @@ func parseContractComments(fset *token.FileSet, f *ast.File) ([]*Contract, error
 				cur.Lemma = true
 			case "rec":
 				cur.Rec = true
+				if strings.Contains(rest, "monotone") {
+					cur.Monotone = true
+				}
 			case "mathint":
 				cur.MathInt = true
+			case "slow":
+				cur.Slow = true
 			case "fresh":
 				cur.FreshRes = true
 			case "unroll":
